@@ -56,7 +56,8 @@ ENV_WEIGHT = {'const': 1.5, 'plain': 1., 'mixed': 1., 'boundary': 1., 'prod2': .
 RAND_ENVS = ['const', 'plain', 'mixed', 'boundary', 'prod2', 'prod3', 'const', 'plain', 'boundary', 'prod2', 'mixed', 'plain']
 
 FINDINGS = {
-    # id: (what, enabled).  A disabled finding removes the corresponding hostile corner from the workload.
+    # id: (what, enabled).  A disabled finding removes the corresponding hostile corner from the workload; if the corner is still
+    # met by the random generator it is counted under coverage.excluded_corners instead of being reported.
     'C07-slice-bounds-not-clamped': ('Array.__getitem__ with a unit-step slice whose bounds lie outside the axis (a[1:10] on length 3, a[2:1]) '
                                      'does not clamp like NumPy: wrong .shape at build and AssertionError at evaluation', True),
     'C07-multi-index-array-outer': ('Array.__getitem__ with two index arrays (a[[0,1],[2,0]]) indexes the outer product instead of pairing the '
@@ -227,7 +228,8 @@ def finish(case, res, key):
     for monitor, detail, nid in case.violations:
         mech = classify(prog, monitor, nid)
         if mech and not FINDINGS[mech][1]:
-            mech = None
+            res.count('excluded_corner/' + mech)     # switched off by the maintainer of the ledger: counted, not reported
+            continue
         expr = ''
         try:
             expr = case.describe(nid)
@@ -655,6 +657,7 @@ def finalize(m, tier, seed):
         rejection_exception_types=sorted(m.sets.get('reject_exception_types', ())),
         hostile=_sub(c, 'hostile/'),
         helpers=_sub(c, 'helpers/'),
+        excluded_corners=_sub(c, 'excluded_corner/'),
         accepted_kind_differences_seen=_sub(c, 'accepted_kind_difference/'),
         accepted_differences=KIND_DIFFERENCES.table,
         documented_refusal_classes=KIND_DIFFERENCES.refusals,
